@@ -11,15 +11,23 @@ class S(vlib.Spec):
     harness_name = "c01"
     needs_thriftgo = True
     corr_codes = {1, 9}
-    code_names = {1: "namespace model and implementation disagree", 2: "two ids share a name", 3: "generated file is not valid Go",
-                  4: "generated packages do not type-check", 5: "exit 0 without any generated file"}
+    code_names = {1: "model and implementation disagree (namespace operations, or name tables vs declared identifiers)", 2: "two ids share a name",
+                  3: "generated file is not valid Go", 4: "generated packages do not type-check", 5: "exit 0 without any generated file",
+                  6: "a package-level identifier is declared twice in one generated package", 7: "a struct type has two members of one name",
+                  8: "a method has two receiver/parameter/result names alike"}
     modelled = ("pkg/namespace/namespace.go (Add, Reserve, Get, ID with the three rename functions the generator uses) -> coq/Gen/Namespace.v; "
+                "generator/golang/scope_internal.go (installNames, buildService, buildFunction, buildStructLike, buildEnum, buildTypedef, buildConstant, Scope.identify; "
+                "scope.go buildSynthesized; types.go isKeywords; thrift.go SupportIsSet) -> coq/Gen/Scope.v, the sequence of Add/MustReserve operations on the file, "
+                "struct, service, function and enum tables; naming styles and LowerFirstRune are Section variables answered by the real code; "
                 "template text is NOT modelled: its validity is decided by go/parser and `go build` on the output of the real thriftgo")
     trusted_base = [
         "hand-written model coq/Gen/Namespace.v of pkg/namespace",
+        "hand-written model coq/Gen/Scope.v of the name-table construction in generator/golang/scope_internal.go; the naming style (styles.Naming.Identify) and common.LowerFirstRune are not modelled: Section variables whose values the harness obtains from the real functions",
+        "harness/godecls (go/parser extraction of declared identifiers, struct members, method parameters), harness/astdump + harness/idlast (resolved AST of the real front end as a Coq term)",
+        "the rule that excludes identifiers composed inside templates from the set comparison (Corr/C01.v: not_modelled_global, not_modelled_member; they still take part in the duplicate oracles 6-8)",
         "go/parser and the Go type checker (`go build -gcflags=-e ./...`) as the oracle for 'valid Go' / 'type-checks' against apache/thrift v0.13.0, cloudwego/gopkg v0.2.0 and /repo's runtime packages",
         "harness/cmd/c01, harness/gobuild, harness/idlgen (program generator), harness/coqfmt, lib/vlib.py",
-        "partial: the theorems cover collision renaming only; well-typedness of template text is observed on generated programs, not proved",
+        "partial: the theorems cover collision renaming and the name tables (package-level names that go through the file table, struct members, method parameters); well-typedness of template text, and identifiers that templates compose without a table, are observed on generated programs, not proved",
     ]
     assumptions = ["programs are inside the validity envelope of idlgen (DESIGN.md 2.2); programs thriftgo rejects are counted (rejected_by_impl), not judged"]
 
